@@ -19,10 +19,15 @@ ob("HTPsync_order", ["C17"], entry="h_HTPsync_order", enforce=None, bound="<= 3 
 for n, tier in [(0, "quick"), (1, "quick"), (5, "thorough"), (4, "thorough")]:
     ob(f"HTPinit_n{n}", ["C02", "C12", "C16"], entry="h_HTPinit", enforce="HTPinit", mode="bounded", tier=tier,
        bound=f"requested ndds == {n} (one constant per run; 0 -> default 16, 1 -> minimum 4)", unwind=20, defines=[f"H4V_NDDS_IN={n}"], **DD)
-# HTPstart (reading the DD chain of an existing file) is NOT registered: a contract with a whole-object frame, and a harness-level
-# formulation over a 1-2 block symbolic file image (h_HTPstart, kept in the unit), both ran cbmc out of memory at 10 GB (about 300k
-# symex steps, 15k VCCs).  Consequence: "the end of file includes trailing DD blocks" (C17) and the decode half of C12's reopen
-# are residual; seeded change C17-m2 is not detected.
+# HTPstart (reading the DD chain of an existing file): a contract with a whole-object frame, and the harness-level formulation over a
+# 1-2 block image of ndds == 4 with the real HTIregister_tag_ref inlined, both ran cbmc out of memory at 10 GB.  What does fit (4-8 min,
+# thorough tier): ONE block of ndds == 2, HTIregister_tag_ref replaced by its contract, the 24-byte image copy of the HP_read stub
+# unwound by name.  Clauses (harness level): a failed read makes HTPstart fail (C16), header and descriptor decode (C12), and "the end of
+# the file is not before the end of any descriptor block or element" (C17) -- the clause seeded change C17-m2 violates.
+ob("HTPstart_b1", ["C17", "C12", "C16"], entry="h_HTPstart", enforce=None, mode="bounded", tier="thorough", timeout=2400, mem_gb=40,
+   bound="file image of ONE DD block with ndds == 2, every descriptor byte symbolic; HTIregister_tag_ref by contract", unwind=6,
+   replace=["HTIregister_tag_ref"], defines=["H4V_MAXNDDS=2", "H4V_TWO_BLOCKS=0", "H4V_LOOPS_NONE"],
+   flags=["--unwindset", "HP_read.0:26"], **DD)
 
 prop("C02",
      residual="'an independent reader recovers the same content' as a whole-file relation; no-overlap of all live elements over a history; chunk/compressed element internal consistency",
